@@ -16,7 +16,8 @@
 //
 // output:  one field per delivery: `<id>` or `<id>:<codes>` with one code per call:
 //          o = no error, n = ErrStashBufferNotSet, e = "stash buffer may be closed" (nothing stashed), ? = other;
-//          then `;st=<pid.StashSize()>`
+//          then `;st=<pid.StashSize()>;alias=<n>` where n counts observations (made at the end of every delivery on the
+//          real objects) of one ReceiveContext being in two places among main mailbox chain / stash chain / global pool
 //
 // Quiescence = the dispatcher's own observation: the mailbox wrapper saw a Dequeue that found the
 // mailbox empty after the last send (never a sleep).  Watchdogs, so that a broken stash cannot stall
@@ -131,6 +132,8 @@ type stasher struct {
 	entered   int // highest gate whose handler was entered (guarded by mb.mu)
 	release   chan struct{}
 	mb        *countingMailbox
+	alias     int    // observations of one ReceiveContext object in two places (must stay 0)
+	aliasWhat string // first such observation
 	bound     int // deliveries a correct stash can cause: messages sent + successful-or-not Stash calls
 	count     int
 }
@@ -148,6 +151,43 @@ func code(err error) byte {
 		return 'e'
 	}
 	return '?'
+}
+
+// checkAlias looks at the real objects: the main mailbox chain (sentinel first), the stash mailbox chain
+// and the free contexts of the global pool must be pairwise distinct ReceiveContext objects, and the
+// context being handled is the main mailbox's sentinel (Model/C13/Pool.lean, theorem pool_no_alias).
+func (a *stasher) checkAlias(ctx *actor.ReceiveContext) {
+	const max = 100000
+	seen := map[*actor.ReceiveContext]string{}
+	note := func(what string) {
+		a.alias++
+		if a.aliasWhat == "" {
+			a.aliasWhat = what
+		}
+	}
+	add := func(cs []*actor.ReceiveContext, where string) {
+		if len(cs) >= max {
+			note(where + "-cycle")
+		}
+		for i, c := range cs {
+			w := where
+			if i == 0 && where != "pool" {
+				w += "-sentinel"
+			}
+			if prev, ok := seen[c]; ok {
+				note(prev + "+" + w)
+			} else {
+				seen[c] = w
+			}
+		}
+	}
+	main := actor.VerifC13MailboxChain(a.mb.inner, max)
+	if len(main) == 0 || main[0] != ctx {
+		note("handled-context-is-not-the-main-sentinel")
+	}
+	add(main, "main")
+	add(actor.VerifC13StashChain(ctx.Self(), max), "stash")
+	add(actor.VerifC13PoolSnapshot(), "pool")
 }
 
 func (a *stasher) Receive(ctx *actor.ReceiveContext) {
@@ -184,6 +224,7 @@ func (a *stasher) Receive(ctx *actor.ReceiveContext) {
 		a.next++
 		if d == "h" {
 			a.events = append(a.events, strconv.Itoa(m.id))
+			a.checkAlias(ctx)
 			return
 		}
 		codes := make([]byte, 0, len(d))
@@ -201,6 +242,7 @@ func (a *stasher) Receive(ctx *actor.ReceiveContext) {
 			ctx.Err(nil) // keep supervision out of the experiment
 		}
 		a.events = append(a.events, strconv.Itoa(m.id)+":"+string(codes))
+		a.checkAlias(ctx)
 	}
 }
 
@@ -390,7 +432,11 @@ func handle(line string) string {
 	st := stashSize(pid)
 	mb.mu.Lock()
 	defer mb.mu.Unlock()
-	return fmt.Sprintf("%s;st=%s", strings.Join(a.events, " "), st)
+	al := strconv.Itoa(a.alias)
+	if a.alias > 0 {
+		al += "(" + a.aliasWhat + ")"
+	}
+	return fmt.Sprintf("%s;st=%s;alias=%s", strings.Join(a.events, " "), st, al)
 }
 
 func main() {
